@@ -80,6 +80,12 @@ def selfcheck(ck, ctx, prop: str, workers: int = 16):
                 meta = json.load(open(mp))
                 if prop in (meta.get("detected_by") or []) or meta.get("property") == prop:
                     jobs.append(("seeded", sid, None, pp))
+    bdir = os.path.join(VERIF, "seeded_benign")
+    if os.path.isdir(bdir):
+        for sid in sorted(os.listdir(bdir)):
+            pp = os.path.join(bdir, sid, "patch.diff")
+            if os.path.exists(pp):
+                jobs.append(("benign", "refactoring " + sid, None, pp))
     with ThreadPoolExecutor(max_workers=workers) as ex:
         results = list(ex.map(lambda j: run_one(repo, prop, j[0], j[1], j[2], j[3]), jobs))
     tally = {"mutants": 0, "mutants_killed": 0, "benign": 0, "benign_silent": 0, "seeded": 0, "seeded_detected": 0,
